@@ -646,14 +646,14 @@ theorem goodReply_starts {v : Ver} {r : Reply} (hr : goodReply v r = true) :
 theorem walk_delivery {v : Ver} {d : Delivery} {lf0 : Bytes} (hd : d.valid v = true)
     (hlf : allLF lf0 = true) :
     ∃ fs lf', filings v lf0 d.chunks = (fs, lf') ∧ allLF lf' = true ∧
-      AllFiled fs d.unit.replies := by
+      AllFiled fs d.burst.replies := by
   obtain ⟨u, chunks⟩ := d
   simp only [Delivery.valid, Bool.and_eq_true, beq_iff_eq] at hd
   obtain ⟨⟨hgood, hflat⟩, hlast⟩ := hd
   cases u with
   | replyOnly r =>
-    simp only [Unit.good] at hgood
-    simp only [Unit.bytes] at hflat
+    simp only [Burst.good] at hgood
+    simp only [Burst.bytes] at hflat
     have htl : allLF r.tail = true := by
       simp only [goodReply, Bool.and_eq_true] at hgood; exact hgood.1.1.1.1.1.1
     obtain ⟨j, hj⟩ := walk_reply hgood hlf chunks lf0
@@ -663,8 +663,8 @@ theorem walk_delivery {v : Ver} {d : Delivery} {lf0 : Bytes} (hd : d.valid v = t
       exact fun x hx => htl x (List.mem_of_mem_drop hx)
     · exact AllFiled.cons ⟨rfl, lf0, j, hlf, rfl⟩ AllFiled.nil
   | echoOnly e =>
-    simp only [Unit.good] at hgood
-    simp only [Unit.bytes] at hflat
+    simp only [Burst.good] at hgood
+    simp only [Burst.bytes] at hflat
     have htl : allLF e.tail = true := by
       simp only [goodEcho, Bool.and_eq_true] at hgood; exact hgood.1.1.1.1
     obtain ⟨x, pre, c, cs2, _, _, hxr, hf⟩ := walk_echo hgood hlf e.tail (Or.inr (allLF_startsLF htl))
@@ -674,8 +674,8 @@ theorem walk_delivery {v : Ver} {d : Delivery} {lf0 : Bytes} (hd : d.valid v = t
     refine ⟨[], e.tail, ?_, htl, AllFiled.nil⟩
     rw [hf, filings_tail v hall.1 (allLF_of_flatten hall.2), hxr]
   | echoReply e r =>
-    simp only [Unit.good, Bool.and_eq_true] at hgood
-    simp only [Unit.bytes] at hflat
+    simp only [Burst.good, Bool.and_eq_true] at hgood
+    simp only [Burst.bytes] at hflat
     obtain ⟨hge, hgr⟩ := hgood
     have htle : allLF e.tail = true := by
       simp only [goodEcho, Bool.and_eq_true] at hge; exact hge.1.1.1.1
@@ -705,7 +705,7 @@ theorem walk_delivery {v : Ver} {d : Delivery} {lf0 : Bytes} (hd : d.valid v = t
 theorem framing {v : Ver} : ∀ (ds : List Delivery) (lf0 : Bytes),
     (∀ d ∈ ds, d.valid v = true) → allLF lf0 = true →
     ∃ fs lf', filings v lf0 (ds.flatMap (·.chunks)) = (fs, lf') ∧ allLF lf' = true ∧
-      AllFiled fs (ds.flatMap (·.unit.replies)) := by
+      AllFiled fs (ds.flatMap (·.burst.replies)) := by
   intro ds
   induction ds with
   | nil => intro lf0 _ hlf; exact ⟨[], lf0, rfl, hlf, AllFiled.nil⟩
